@@ -182,7 +182,27 @@ class _MatchLowering(ast.NodeTransformer):
         return out or [ast.copy_location(ast.Pass(), node)]
 
 
+class _SuppressLowering(ast.NodeTransformer):
+    """`with contextlib.suppress(A, B): BODY` is `try: BODY` / `except (A, B): pass` (the context manager has no other effect);
+    written that way, every rule that reads handlers sees it. Only when suppress(...) is the statement's single item."""
+
+    def visit_With(self, node):
+        self.generic_visit(node)
+        if len(node.items) == 1 and node.items[0].optional_vars is None:
+            c = node.items[0].context_expr
+            parts = dotted_parts(c.func) if isinstance(c, ast.Call) else None
+            if parts and parts[-1] == "suppress" and (len(parts) == 1 or parts[-2] == "contextlib") and c.args and not c.keywords and \
+                    not any(isinstance(a, ast.Starred) for a in c.args):
+                typ = c.args[0] if len(c.args) == 1 else ast.copy_location(ast.Tuple(elts=list(c.args), ctx=ast.Load()), c)
+                h = ast.copy_location(ast.ExceptHandler(type=typ, name=None, body=[ast.copy_location(ast.Pass(), node)]), node)
+                return ast.copy_location(ast.Try(body=node.body, handlers=[h], orelse=[], finalbody=[]), node)
+        return node
+
+
 def lower_match(tree):
+    if any(isinstance(n, ast.With) for n in ast.walk(tree)) and any(isinstance(n, ast.Name) and n.id == "suppress" or isinstance(n, ast.Attribute) and n.attr == "suppress" for n in ast.walk(tree)):
+        tree = _SuppressLowering().visit(tree)
+        ast.fix_missing_locations(tree)
     if not any(isinstance(n, getattr(ast, "Match", ())) for n in ast.walk(tree)):
         return tree
     tree = _MatchLowering().visit(tree)
